@@ -47,7 +47,8 @@ class C11(Prop):
     def gen_case(self, rng, k, tier):
         cfg = gen.GenCfg(n_ranks=rng.choice([1, 2, 3, 4]), n_steps=rng.choice([0, 1, 2]), p_launch=0.6, p_mem=0.3, p_comm=0.3,
                          p_sync=rng.choice([0, 0.1]), streams=rng.choice([(7,), (7, 9)]), max_children=rng.choice([2, 3]),
-                         base=rng.choice([0, 1000]), fmt=rng.choice(["json", "json.gz"]))
+                         base=rng.choice([0, 1000]), fmt=rng.choice(["json", "json.gz"]),
+                         kdur=rng.choice([(0, 1, 2, 3, 5, 8), (1, 2), (2,)]))      # few distinct durations: exact ties between the totals of different names
         superset = cfg.n_ranks >= 2 and rng.random() < 0.4
         if superset:
             # a small first rank whose vocabulary is contained in a later rank's: the job's table then has the SIZE of that rank's own
